@@ -353,6 +353,10 @@ func (e *Eng) doCall(fr *Frame, st *State, instr ssa.Instruction, cc *ssa.CallCo
 					vars[vd.Name] = v
 					continue
 				}
+				if v, ok := e.loopSiteVar(fr, instr, vd.Name); ok {
+					vars[vd.Name] = v
+					continue
+				}
 				vars[vd.Name] = e.localAt(fr, st, instr, vd.Name)
 			}
 			t := e.evalClause(ss.Clause, st, e.entry, nil, vars)
@@ -998,10 +1002,21 @@ func (e *Eng) ghostRead(fr *Frame, st *State, fn *ssa.Function, args []Val, argT
 			hs = e.heapFor(fr, st, true)
 		}
 	}
+	var v Val
 	if len(args) == 0 {
-		return e.hload(hs, name, nil, rt)
+		v = e.hload(hs, name, nil, rt)
+	} else {
+		v = e.hload(hs, name, []T{ghostKey(args[0])}, rt)
 	}
-	return e.hload(hs, name, []T{ghostKey(args[0])}, rt)
+	// history ghosts of type int are counters of events: they are mathematical naturals, modelled as 64-bit
+	// values that stay below 2^62 (stated as a fact about every value read outside binders)
+	if b, ok := under(rt).(*types.Basic); ok && b.Kind() == types.Int && fr.side != nil && e.binderDepth == 0 {
+		if t, ok := v.(T); ok {
+			*fr.side = append(*fr.side, tAnd(app("bvsle", i64(0), t), app("bvslt", t, bvLit(64, 1<<62))))
+			e.note("history ghosts of type int are event counters: mathematical naturals modelled as 64-bit values below 2^62")
+		}
+	}
+	return v
 }
 
 func (e *Eng) pureIfaceCall(fr *Frame, st *State, key string, recv *IfaceV, sig *types.Signature, tainted bool) Val {
@@ -2345,6 +2360,37 @@ func (w *World) namedType(name string) types.Type {
 
 // callArgVar: in call-site clauses the names arg0, arg1, ... denote the call's arguments and recv the
 // receiver of an interface method call.
+// loopSiteVar: inside the body of a range loop, `iter` is the index of the element being processed and
+// `rng` the ranged-over slice (the names loop clauses use).
+func (e *Eng) loopSiteVar(fr *Frame, instr ssa.Instruction, name string) (Val, bool) {
+	if name != "iter" && name != "rng" {
+		return nil, false
+	}
+	var best *loopInfo
+	for _, li := range e.loopList {
+		// the loop's header dominates the call (the call may sit on a path that leaves the loop)
+		if li.rangeIdx == nil || !li.header.Dominates(instr.Block()) {
+			continue
+		}
+		if best == nil || best.header.Dominates(li.header) {
+			best = li
+		}
+	}
+	if best == nil {
+		return nil, false
+	}
+	if name == "iter" {
+		if t, ok := fr.vals[best.rangeIdx].(T); ok {
+			return app("bvadd", t, i64(1)), true
+		}
+		return nil, false
+	}
+	if best.rangeVal == nil {
+		return nil, false
+	}
+	return e.val(fr, best.rangeVal), true
+}
+
 func (e *Eng) callArgVar(fr *Frame, cc *ssa.CallCommon, name string) (Val, bool) {
 	if name == "recv" && cc.IsInvoke() {
 		return e.val(fr, cc.Value), true
